@@ -14,6 +14,7 @@ import (
 	"sync/atomic"
 	"time"
 
+	"mellium.im/xmpp"
 	"mellium.im/xmpp/jid"
 	"mellium.im/xmpp/muc"
 	"mellium.im/xmpp/mux"
@@ -31,36 +32,43 @@ type run struct {
 	rs    *common.RawSession
 	cl    *muc.Client
 	addrs []int
+	conf  nsConf // configuration of the session: the stanza namespace of its stream
+	ns    string
+	jsent []*replyShape // shape of the error reply sent to the pending join / leave
+	lsent []*replyShape
 
-	chans   []*muc.Channel
-	jst     []string // idle parked insel
-	lst     []string
-	jcancel []context.CancelFunc
-	lcancel []context.CancelFunc
-	jready  []string // "", "err", "ctx", "self"
-	lready  []string // "", "err", "ctx"
-	jid     []string // id of the pending join presence
-	lid     []string
-	managed map[int]int
-	cur     []int // occupant address the channel holds
-	req     []int // occupant address the current / last Join asked for
-	tok     []bool
-	member  []bool // specification ghost (observable events only)
-	refused []bool // the last Leave of the channel was answered with an error
+	chans      []*muc.Channel
+	jst        []string // idle parked insel
+	lst        []string
+	jcancel    []context.CancelFunc
+	lcancel    []context.CancelFunc
+	jready     []string // "", "err", "ctx", "self"
+	lready     []string // "", "err", "ctx"
+	jid        []string // id of the pending join presence
+	lid        []string
+	managed    map[int]int
+	cur        []int // occupant address the channel holds
+	req        []int // occupant address the current / last Join asked for
+	tok        []bool
+	member     []bool // specification ghost (observable events only)
+	refused    []bool // the last Leave of the channel was answered with an error
 	everJoined map[int]bool
-	feedCh  chan []byte
-	serveRet atomic.Value // string: how Serve ended (set before the event is emitted)
-	lastItem *sentItem    // the item of the last presence fed (what the callback must report)
-	lastHeld string       // last `=` token (addresses held, as Me() reports them)
-	blockedBy string // which parked call ("j0", "l1") keeps the serve loop blocked
-	blocked bool // serve loop blocked behind a parked Join (hand-off or unclosed error reply)
-	nsync   int
-	outPos  int
-	upres   int
-	inv     int
-	trace   []string
-	skipped []c06.Ev
-	problems []string
+	feedCh     chan []byte
+	wrote      chan struct{}   // signalled whenever the session has written something
+	serveRet   atomic.Value    // string: how Serve ended (set before the event is emitted)
+	lastItem   *sentItem       // the item of the last presence fed (what the callback must report)
+	lastInv    *muc.Invitation // what the last mediated invitation fed says (nil: not checked)
+	lastHeld   string          // last `=` token (addresses held, as Me() reports them)
+	blockedBy  string          // which parked call ("j0", "l1") keeps the serve loop blocked
+	blocked    bool            // serve loop blocked behind a parked Join (hand-off or unclosed error reply)
+	nsync      int
+	ncall      int
+	outPos     int
+	upres      int
+	inv        int
+	trace      []string
+	skipped    []c06.Ev
+	problems   []string
 }
 
 // occupant address a: room a%10, nickname a/10 (so a and a+10 are two nicknames in one room)
@@ -68,14 +76,25 @@ func occ(a int) jid.JID {
 	return jid.MustParse(fmt.Sprintf("room%d@conf.example.net/nick%d", a%10, a/10))
 }
 
-func newRun(r *common.Run, addrs []int) (*run, error) {
+func newRun(r *common.Run, addrs []int, cf nsConf) (*run, error) {
 	ctl := c06.NewCtl("muc.join.select", "muc.leave.select")
-	rs, err := common.NewRawSession(0, "jabber:client", jid.MustParse("me@example.net/h"), jid.MustParse("example.net"))
+	var state xmpp.SessionState
+	if cf.ns == "jabber:server" {
+		state = xmpp.S2S
+	}
+	rs, err := common.NewRawSession(state, cf.ns, jid.MustParse("me@example.net/h"), jid.MustParse("example.net"))
 	if err != nil {
 		return nil, err
 	}
 	n := len(addrs)
-	x := &run{r: r, ctl: ctl, rs: rs, addrs: addrs, managed: map[int]int{}, everJoined: map[int]bool{}, feedCh: make(chan []byte, 1024)}
+	x := &run{r: r, ctl: ctl, rs: rs, addrs: addrs, conf: cf, ns: cf.ns, managed: map[int]int{}, everJoined: map[int]bool{}, feedCh: make(chan []byte, 1024)}
+	x.wrote = make(chan struct{}, 1)
+	rs.Out.OnWrite = func([]byte) {
+		select {
+		case x.wrote <- struct{}{}:
+		default:
+		}
+	}
 	go func() {
 		// one writer: peer stanzas reach the session in the order they were fed
 		for b := range x.feedCh {
@@ -90,15 +109,20 @@ func newRun(r *common.Run, addrs []int) (*run, error) {
 	x.jready, x.lready = make([]string, n), make([]string, n)
 	x.jid, x.lid = make([]string, n), make([]string, n)
 	x.tok, x.member, x.refused = make([]bool, n), make([]bool, n), make([]bool, n)
+	x.jsent, x.lsent = make([]*replyShape, n), make([]*replyShape, n)
 	x.cur, x.req = append([]int(nil), addrs...), append([]int(nil), addrs...)
 	for i := range x.jst {
 		x.jst[i], x.lst[i] = "idle", "idle"
 	}
 	x.cl = &muc.Client{
-		HandleInvite:       func(muc.Invitation) { ctl.Emit("cb", "invite", nil) },
+		HandleInvite:       func(inv muc.Invitation) { ctl.Emit("cb", "invite", inv) },
 		HandleUserPresence: func(_ stanza.Presence, it muc.Item) { ctl.Emit("cb", "upres", it) },
 	}
-	m := mux.New("jabber:client", muc.HandleClient(x.cl))
+	if cf.nocb {
+		// the callbacks are optional: the bookkeeping must be the same without them
+		x.cl = &muc.Client{}
+	}
+	m := mux.New(cf.ns, muc.HandleClient(x.cl))
 	ctl.Go("serve", func() {
 		err := rs.S.Serve(m)
 		x.serveRet.Store(fmt.Sprint(err))
@@ -107,14 +131,20 @@ func newRun(r *common.Run, addrs []int) (*run, error) {
 	return x, nil
 }
 
-func (x *run) problem(f string, a ...interface{}) { x.problems = append(x.problems, fmt.Sprintf(f, a...)) }
+func (x *run) problem(f string, a ...interface{}) {
+	x.problems = append(x.problems, fmt.Sprintf(f, a...))
+}
 
 func (x *run) lines() []string {
 	var l []string
 	for _, a := range x.addrs {
 		l = append(l, strconv.Itoa(a))
 	}
-	return []string{x.r.Prop + " muc " + common.Join(l, ",") + " " + common.Join(x.trace, ",")}
+	tr := x.trace
+	if x.conf.tok != "" {
+		tr = append([]string{x.conf.tok}, tr...)
+	}
+	return []string{x.r.Prop + " muc " + common.Join(l, ",") + " " + common.Join(tr, ",")}
 }
 
 func isEv(who, what string) func(c06.Ev) bool {
@@ -147,7 +177,7 @@ func (x *run) awaitPresence(to string, unavailable bool) string {
 				}
 			}
 		}
-		time.Sleep(50 * time.Microsecond)
+		x.pause()
 	}
 	x.problem("WATCHDOG waiting for the presence to %s on the wire", to)
 	return ""
@@ -157,6 +187,14 @@ func (x *run) awaitPresence(to string, unavailable bool) string {
 func (x *run) sync() {
 	if !x.syncQ() {
 		x.r.Fail("serve-continues", "serve-stalled", x.lines(), "the serve loop stopped processing stanzas"+x.served())
+	}
+}
+
+// pause waits for the next write of the session (or a short while: Serve may have returned).
+func (x *run) pause() {
+	select {
+	case <-x.wrote:
+	case <-time.After(2 * time.Millisecond):
 	}
 }
 
@@ -175,7 +213,7 @@ func (x *run) syncQ() bool {
 	}
 	x.nsync++
 	id := fmt.Sprintf("sync%d", x.nsync)
-	x.feed(fmt.Sprintf(`<iq xmlns="jabber:client" type="get" id="%s" from="example.net"><ping xmlns="urn:xmpp:ping"/></iq>`, id))
+	x.feed(fmt.Sprintf(`<iq xmlns="%s" type="get" id="%s" from="example.net"><ping xmlns="urn:xmpp:ping"/></iq>`, x.ns, id))
 	deadline := time.Now().Add(watchdog)
 	for time.Now().Before(deadline) {
 		out := string(x.rs.Out.Bytes())
@@ -185,7 +223,7 @@ func (x *run) syncQ() bool {
 		if x.serveRet.Load() != nil {
 			break // Serve has returned: nothing will answer
 		}
-		time.Sleep(50 * time.Microsecond)
+		x.pause()
 	}
 	x.problem("WATCHDOG: serve loop does not answer (stalled or dead)%s", x.served())
 	return false
@@ -203,6 +241,23 @@ func (x *run) callbacks() {
 			}
 		case e.Who == "cb" && e.What == "invite":
 			x.inv++
+			if got, ok := e.Extra.(muc.Invitation); ok && x.lastInv != nil {
+				w := x.lastInv
+				d := ""
+				switch {
+				case got.Reason != w.Reason:
+					d = fmt.Sprintf("reason %q, sent %q", got.Reason, w.Reason)
+				case got.Password != w.Password:
+					d = fmt.Sprintf("password %q, sent %q", got.Password, w.Password)
+				case got.Continue != w.Continue || got.Thread != w.Thread:
+					d = fmt.Sprintf("continue %v thread %q, sent %v %q", got.Continue, got.Thread, w.Continue, w.Thread)
+				case got.XMLName.Space != muc.NSUser:
+					d = fmt.Sprintf("name %v, not the mediated invitation's", got.XMLName)
+				}
+				if d != "" {
+					x.r.Fail("invite-once", "invitation-differs-from-the-one-sent:"+strings.SplitN(d, " ", 2)[0], x.lines(), "HandleInvite was given an invitation that differs from the one the room forwarded: "+d)
+				}
+			}
 		case strings.HasPrefix(e.What, "panic:"):
 			x.r.Fail("no-panic", "panic:"+e.Who, x.lines(), e.What)
 			x.problem("%s %s", e.Who, e.What)
@@ -262,6 +317,18 @@ func (x *run) sample() {
 	}
 }
 
+// requestSent: the request of a call went to the occupant address, with the type of the call and —
+// if the caller supplied a presence — under the caller's id (its type and to address have no effect).
+func (x *run) requestSent(call string, c int, id string, custom bool, ownID, to string) {
+	clause := map[string]string{"Join": "join-success-iff", "Leave": "leave-returns"}[call]
+	switch {
+	case id == "":
+		x.r.Fail(clause, "request-not-sent-to-the-occupant-address", x.lines(), fmt.Sprintf("%s of channel %d: no presence of the right type to %s appeared on the wire", call, c, to))
+	case custom && id != ownID:
+		x.r.Fail(clause, "request-lost-the-caller's-id", x.lines(), fmt.Sprintf("%s of channel %d was given a presence with id %q, the request on the wire has id %q", call, c, ownID, id))
+	}
+}
+
 func (x *run) joinReturned(c int, e c06.Ev) {
 	err, _ := e.Extra.(error)
 	x.jst[c] = "idle"
@@ -297,6 +364,8 @@ func (x *run) joinReturned(c int, e c06.Ev) {
 		x.trace = append(x.trace, fmt.Sprintf("R%dse", c))
 		if x.jready[c] != "err" {
 			x.r.Fail("join-error", "stanza-error-without-error-reply", x.lines(), fmt.Sprintf("Join of channel %d returned a stanza error nobody sent: %v", c, err))
+		} else {
+			x.checkReturned("Join", c, se, x.jsent[c])
 		}
 		cleanup()
 	case errors.Is(err, context.Canceled):
@@ -309,10 +378,14 @@ func (x *run) joinReturned(c int, e c06.Ev) {
 			x.r.Fail("join-success-iff", key, x.lines(), fmt.Sprintf("Join of channel %d returned %v (ready=%q)", c, err, x.jready[c]))
 		}
 		cleanup()
+	case x.jready[c] == "err":
+		// the room answered the join presence with an error and the call ended with something else
+		x.r.Fail("join-error", "room's-error-not-returned:"+x.ns+":"+x.jsent[c].class(), x.lines(), fmt.Sprintf("the room answered the join of channel %d with a stanza error (reply children %q, stanza namespace %s); Join returned %q instead of it", c, x.jsent[c].raw, x.ns, err))
+		x.problem("Join %d returned %v", c, err)
 	default:
 		x.problem("Join %d returned %v", c, err)
 	}
-	x.jready[c] = ""
+	x.jready[c], x.jsent[c] = "", nil
 }
 
 func (x *run) leaveReturned(c int, e c06.Ev) {
@@ -328,6 +401,11 @@ func (x *run) leaveReturned(c int, e c06.Ev) {
 		x.tok[c] = false
 	case errors.As(err, &se):
 		x.trace = append(x.trace, fmt.Sprintf("D%dse", c))
+		if x.lready[c] != "err" {
+			x.r.Fail("leave-returns", "stanza-error-without-error-reply", x.lines(), fmt.Sprintf("Leave of channel %d returned a stanza error nobody sent: %v", c, err))
+		} else {
+			x.checkReturned("Leave", c, se, x.lsent[c])
+		}
 		x.refused[c] = true
 		if cc, ok := x.managed[x.cur[c]]; ok && cc == c {
 			delete(x.managed, x.cur[c])
@@ -337,10 +415,13 @@ func (x *run) leaveReturned(c int, e c06.Ev) {
 		if x.lready[c] != "ctx" {
 			x.r.Fail("leave-returns", "leave-missed-unavailable-presence", x.lines(), fmt.Sprintf("Leave of channel %d returned %v (ready=%q, token=%v)", c, err, x.lready[c], x.tok[c]))
 		}
+	case x.lready[c] == "err":
+		x.r.Fail("leave-returns", "room's-error-not-returned:"+x.ns+":"+x.lsent[c].class(), x.lines(), fmt.Sprintf("the room answered the leave of channel %d with a stanza error (reply children %q, stanza namespace %s); Leave returned %q instead of it", c, x.lsent[c].raw, x.ns, err))
+		x.problem("Leave %d returned %v", c, err)
 	default:
 		x.problem("Leave %d returned %v", c, err)
 	}
-	x.lready[c] = ""
+	x.lready[c], x.lsent[c] = "", nil
 }
 
 func (x *run) feed(s string) { x.feedCh <- []byte(s) }
@@ -352,8 +433,11 @@ func (x *run) act(a string) bool {
 	num := func(k int) int { n, _ := strconv.Atoi(a[k:]); return n }
 	switch {
 	case a[0] == 'J':
-		// J<c> asks for the address the channel holds, J<c>@<a> uses the Nick option
-		spec := strings.Split(a[1:], "@")
+		// J<c> asks for the address the channel holds, J<c>@<a> uses the Nick option; a trailing `!`:
+		// through JoinPresence with a presence of the caller's (own id, a type and — on a re-join — a
+		// to address that must have no effect)
+		custom := strings.HasSuffix(a, "!")
+		spec := strings.Split(strings.TrimSuffix(a[1:], "!"), "@")
 		c, _ := strconv.Atoi(spec[0])
 		if c >= len(x.addrs) || x.jst[c] != "idle" || x.blocked {
 			return false
@@ -373,13 +457,23 @@ func (x *run) act(a string) bool {
 		label := "j" + strconv.Itoa(c)
 		first := x.chans[c] == nil
 		from := occ(x.cur[c])
+		x.ncall++
+		own := stanza.Presence{ID: fmt.Sprintf("own%d", x.ncall), Type: stanza.UnavailablePresence, To: jid.MustParse("elsewhere@conf.example.net/nobody")}
 		x.ctl.Go(label, func() {
 			var err error
-			if first {
+			switch {
+			case first && custom:
+				var ch *muc.Channel
+				own.To = from // the room comes from the presence here
+				ch, err = x.cl.JoinPresence(ctx, own, x.rs.S, opts...)
+				x.chans[c] = ch
+			case first:
 				var ch *muc.Channel
 				ch, err = x.cl.Join(ctx, from, x.rs.S, opts...)
 				x.chans[c] = ch
-			} else {
+			case custom:
+				err = x.chans[c].JoinPresence(ctx, own, opts...)
+			default:
 				err = x.chans[c].Join(ctx, opts...)
 			}
 			x.ctl.Emit(label, "ret:", err)
@@ -401,6 +495,7 @@ func (x *run) act(a string) bool {
 		x.tok[c] = false
 		x.wait(isEv(label, "park:muc.join.select"), label+" before its select")
 		x.jid[c] = x.awaitPresence(occ(want).String(), false)
+		x.requestSent("Join", c, x.jid[c], custom, own.ID, occ(want).String())
 	case a[0] == 's':
 		c := num(1)
 		if c >= len(x.addrs) || x.jst[c] != "parked" || (x.blocked && x.blockedBy != "j"+strconv.Itoa(c)) {
@@ -439,7 +534,7 @@ func (x *run) act(a string) bool {
 		if a[0] == 'U' {
 			typ = ` type="unavailable"`
 		}
-		st := fmt.Sprintf(`<presence xmlns="jabber:client" from="%s" to="me@example.net/h"%s>%s</presence>`, occ(ad), typ, item.xml())
+		st := fmt.Sprintf(`<presence xmlns="%s" from="%s" to="me@example.net/h"%s>%s</presence>`, x.ns, occ(ad), typ, item.xml())
 		x.lastItem = item
 		// processed: the serve loop has taken the presence and gone on (a handler that fails on a
 		// legal payload ends Serve: the presence was not processed)
@@ -480,7 +575,7 @@ func (x *run) act(a string) bool {
 				}
 				x.callbacks()
 				want := 0
-				if reg {
+				if reg && !x.conf.nocb {
 					want = 1 // an occupant presence of a registered address that completes no join
 				}
 				if x.upres-before != want {
@@ -520,14 +615,26 @@ func (x *run) act(a string) bool {
 			}
 		}
 	case strings.HasPrefix(a, "Ej"), strings.HasPrefix(a, "Xj"):
-		c := num(2)
-		if c >= len(x.addrs) || x.jst[c] == "idle" || x.jready[c] != "" || x.blocked {
+		spec := strings.SplitN(a[2:], ":", 2)
+		c, cerr := strconv.Atoi(spec[0])
+		var shape *replyShape
+		if len(spec) == 2 {
+			var sok bool
+			if shape, sok = parseReply(spec[1]); !sok || a[0] != 'E' {
+				return false
+			}
+		}
+		if cerr != nil || c >= len(x.addrs) || x.jst[c] == "idle" || x.jready[c] != "" || x.blocked {
 			return false
 		}
 		x.trace = append(x.trace, a)
 		if a[0] == 'E' {
 			x.jready[c] = "err"
-			x.feed(fmt.Sprintf(`<presence xmlns="jabber:client" from="%s" id="%s" type="error"><error type="cancel"><conflict xmlns="urn:ietf:params:xml:ns:xmpp-stanzas"/></error></presence>`, occ(x.req[c]), x.jid[c]))
+			if shape == nil {
+				shape = &replyShape{raw: "e", form: 'e'}
+			}
+			x.jsent[c] = shape
+			x.feed(fmt.Sprintf(`<presence xmlns="%s" from="%s" id="%s" type="error">%s</presence>`, x.ns, occ(x.req[c]), x.jid[c], shape.xml(x.ns, false)))
 		} else {
 			x.jready[c] = "ctx"
 			x.jcancel[c]()
@@ -541,7 +648,9 @@ func (x *run) act(a string) bool {
 			x.blocked, x.blockedBy = true, "j"+strconv.Itoa(c) // the error reply stays open until the parked Join takes it
 		}
 	case a[0] == 'L':
-		c := num(1)
+		// L<c>; a trailing `!`: LeavePresence with a status and a presence of the caller's
+		custom := strings.HasSuffix(a, "!")
+		c, _ := strconv.Atoi(strings.TrimSuffix(a[1:], "!"))
 		if c >= len(x.addrs) || x.lst[c] != "idle" || x.chans[c] == nil || x.blocked || x.jst[c] != "idle" {
 			return false
 		}
@@ -549,13 +658,21 @@ func (x *run) act(a string) bool {
 		ctx, cancel := context.WithCancel(context.Background())
 		x.lcancel[c] = cancel
 		label := "l" + strconv.Itoa(c)
+		x.ncall++
+		own := stanza.Presence{ID: fmt.Sprintf("own%d", x.ncall), Type: stanza.SubscribePresence, To: jid.MustParse("elsewhere@conf.example.net/nobody")}
 		x.ctl.Go(label, func() {
-			err := x.chans[c].Leave(ctx, "")
+			var err error
+			if custom {
+				err = x.chans[c].LeavePresence(ctx, "gone fishing", own)
+			} else {
+				err = x.chans[c].Leave(ctx, "")
+			}
 			x.ctl.Emit(label, "ret:", err)
 		})
 		x.lst[c], x.lready[c] = "parked", ""
 		x.wait(isEv(label, "park:muc.leave.select"), label+" before its select")
 		x.lid[c] = x.awaitPresence(occ(x.cur[c]).String(), true)
+		x.requestSent("Leave", c, x.lid[c], custom, own.ID, occ(x.cur[c]).String())
 	case a[0] == 'l':
 		c := num(1)
 		if c >= len(x.addrs) || x.lst[c] != "parked" || (x.blocked && x.blockedBy != "l"+strconv.Itoa(c)) {
@@ -592,14 +709,26 @@ func (x *run) act(a string) bool {
 			x.sync()
 		}
 	case strings.HasPrefix(a, "El"), strings.HasPrefix(a, "Xl"):
-		c := num(2)
-		if c >= len(x.addrs) || x.lst[c] == "idle" || x.lready[c] != "" || x.tok[c] || x.blocked {
+		spec := strings.SplitN(a[2:], ":", 2)
+		c, cerr := strconv.Atoi(spec[0])
+		var shape *replyShape
+		if len(spec) == 2 {
+			var sok bool
+			if shape, sok = parseReply(spec[1]); !sok || a[0] != 'E' {
+				return false
+			}
+		}
+		if cerr != nil || c >= len(x.addrs) || x.lst[c] == "idle" || x.lready[c] != "" || x.tok[c] || x.blocked {
 			return false
 		}
 		x.trace = append(x.trace, a)
 		if a[0] == 'E' {
 			x.lready[c] = "err"
-			x.feed(fmt.Sprintf(`<presence xmlns="jabber:client" from="%s" id="%s" type="error"><error type="cancel"><forbidden xmlns="urn:ietf:params:xml:ns:xmpp-stanzas"/></error></presence>`, occ(x.cur[c]), x.lid[c]))
+			if shape == nil {
+				shape = &replyShape{raw: "e", form: 'e'}
+			}
+			x.lsent[c] = shape
+			x.feed(fmt.Sprintf(`<presence xmlns="%s" from="%s" id="%s" type="error">%s</presence>`, x.ns, occ(x.cur[c]), x.lid[c], shape.xml(x.ns, true)))
 		} else {
 			x.lready[c] = "ctx"
 			x.lcancel[c]()
@@ -625,7 +754,7 @@ func (x *run) act(a string) bool {
 			return false
 		}
 		x.trace = append(x.trace, a) // for the model: an unrelated stanza
-		x.feed(fmt.Sprintf(`<presence xmlns="jabber:client" from="%s" id="%s" type="error"><error type="cancel"><forbidden xmlns="urn:ietf:params:xml:ns:xmpp-stanzas"/></error></presence>`, occ(x.cur[c]), id[c]))
+		x.feed(fmt.Sprintf(`<presence xmlns="%s" from="%s" id="%s" type="error"><error type="cancel"><forbidden xmlns="urn:ietf:params:xml:ns:xmpp-stanzas"/></error></presence>`, x.ns, occ(x.cur[c]), id[c]))
 		before := len(x.problems)
 		x.sync()
 		if len(x.problems) > before {
@@ -634,7 +763,8 @@ func (x *run) act(a string) bool {
 	case a[0] == 'I':
 		// I or I<children>: a message whose children are, in this order,
 		// b body, s subject, l legacy direct-invitation x, u unrelated payload,
-		// m muc#user x with one invite, M muc#user x with two invites, d muc#user x with a decline only
+		// m muc#user x with one invite, M muc#user x with two invites, d muc#user x with a decline only,
+		// P muc#user x with an invite carrying reason and continue / thread, and a password
 		if x.blocked {
 			return false
 		}
@@ -644,8 +774,9 @@ func (x *run) act(a string) bool {
 		}
 		x.trace = append(x.trace, "I"+kids)
 		before := x.inv
+		x.lastInv = nil
 		var sb strings.Builder
-		sb.WriteString(`<message xmlns="jabber:client" from="room0@conf.example.net" to="me@example.net/h">`)
+		sb.WriteString(`<message xmlns="` + x.ns + `" from="room0@conf.example.net" to="me@example.net/h">`)
 		want := 0
 		for _, k := range kids {
 			switch k {
@@ -660,9 +791,15 @@ func (x *run) act(a string) bool {
 			case 'm':
 				sb.WriteString(`<x xmlns="http://jabber.org/protocol/muc#user"><invite from="friend@example.net/x"><reason>come</reason></invite></x>`)
 				want = 1
+				x.lastInv = &muc.Invitation{Reason: "come"}
+			case 'P':
+				sb.WriteString(`<x xmlns="http://jabber.org/protocol/muc#user"><invite from="friend@example.net/x"><reason>join us</reason><continue thread="t1"/></invite><password>pw</password></x>`)
+				want = 1
+				x.lastInv = &muc.Invitation{Reason: "join us", Password: "pw", Continue: true, Thread: "t1"}
 			case 'M':
 				sb.WriteString(`<x xmlns="http://jabber.org/protocol/muc#user"><invite from="friend@example.net/x"/><invite from="other@example.net/y"/></x>`)
 				want = 1
+				x.lastInv = nil
 			case 'd':
 				sb.WriteString(`<x xmlns="http://jabber.org/protocol/muc#user"><decline from="friend@example.net/x"/></x>`)
 			}
@@ -671,6 +808,10 @@ func (x *run) act(a string) bool {
 		x.feed(sb.String())
 		x.sync()
 		x.callbacks()
+		x.lastInv = nil
+		if x.conf.nocb {
+			want = 0
+		}
 		if x.inv-before != want {
 			x.r.Fail("invite-once", fmt.Sprintf("callback-called-%d-times-want-%d:first-child-%c", x.inv-before, want, kids[0]), x.lines(), fmt.Sprintf("message children %q: HandleInvite was called %d times, the message carries %d mediated invitation element(s)", kids, x.inv-before, want))
 		}
@@ -680,7 +821,7 @@ func (x *run) act(a string) bool {
 		}
 		x.trace = append(x.trace, a)
 		bu, bi := x.upres, x.inv
-		x.feed(`<message xmlns="jabber:client" type="chat" from="room0@conf.example.net/nick0"><body>hi</body></message><presence xmlns="jabber:client" from="room0@conf.example.net/nick0"/><presence xmlns="jabber:client" from="room1@conf.example.net/nick1" type="unavailable"/>`)
+		x.feed(strings.ReplaceAll(`<message xmlns="NS" type="chat" from="room0@conf.example.net/nick0"><body>hi</body></message><presence xmlns="NS" from="room0@conf.example.net/nick0"/><presence xmlns="NS" from="room1@conf.example.net/nick1" type="unavailable"/>`, "NS", x.ns))
 		x.sync()
 		x.callbacks()
 		if x.upres != bu || x.inv != bi {
@@ -728,15 +869,16 @@ func (x *run) epilogue() string {
 }
 
 func runCase(r *common.Run, addrs []int, sched []string, class string) {
-	runCaseWith(r, addrs, func(x *run) {
+	cf, sched := splitConf(sched) // an optional first token names the configuration of the session
+	runCaseWith(r, addrs, cf, func(x *run) {
 		for _, a := range sched {
 			x.act(a)
 		}
 	}, class)
 }
 
-func runCaseWith(r *common.Run, addrs []int, body func(x *run), class string) {
-	x, err := newRun(r, addrs)
+func runCaseWith(r *common.Run, addrs []int, cf nsConf, body func(x *run), class string) {
+	x, err := newRun(r, addrs, cf)
 	if err != nil {
 		r.Notes = append(r.Notes, "session setup failed: "+err.Error())
 		return
@@ -775,19 +917,19 @@ var corpus = []struct {
 	addrs string
 	sched string
 }{
-	{"0", "J0,s0,A0,L0,l0,U0"},                 // join, leave
-	{"0", "J0,s0,A0,A0,U0,A0"},                 // member presence, kicked, presence afterwards is ignored
-	{"0", "J0,A0,s0"},                          // self-presence before the joiner selects
-	{"0", "J0,s0,Ej0,A0,U0"},                   // join refused: later presences of that room are ignored
-	{"0", "J0,s0,Xj0,A0"},                      // join cancelled
-	{"0", "J0,s0,Xj0,J0,s0,A0"},                // cancelled join, then a re-join on the same channel
+	{"0", "J0,s0,A0,L0,l0,U0"},                   // join, leave
+	{"0", "J0,s0,A0,A0,U0,A0"},                   // member presence, kicked, presence afterwards is ignored
+	{"0", "J0,A0,s0"},                            // self-presence before the joiner selects
+	{"0", "J0,s0,Ej0,A0,U0"},                     // join refused: later presences of that room are ignored
+	{"0", "J0,s0,Xj0,A0"},                        // join cancelled
+	{"0", "J0,s0,Xj0,J0,s0,A0"},                  // cancelled join, then a re-join on the same channel
 	{"0", "J0,s0,A0,L0,l0,U0,J0,s0,A0,L0,l0,U0"}, // re-join after leaving
-	{"0", "J0,s0,A0,L0,U0,l0"},                 // unavailable presence processed before Leave selects
-	{"0", "J0,s0,A0,L0,l0,El0,U0"},             // leave refused
-	{"0", "J0,s0,A0,L0,l0,Xl0"},                // leave cancelled
-	{"0", "J0,s0,A0,U0,L0,l0"},                 // kicked, then Leave
+	{"0", "J0,s0,A0,L0,U0,l0"},                   // unavailable presence processed before Leave selects
+	{"0", "J0,s0,A0,L0,l0,El0,U0"},               // leave refused
+	{"0", "J0,s0,A0,L0,l0,Xl0"},                  // leave cancelled
+	{"0", "J0,s0,A0,U0,L0,l0"},                   // kicked, then Leave
 	{"0,1", "J0,s0,J1,s1,A1,A0,U1,A7,U7,I,N,L0,l0,U0"},
-	{"0,1", "A0,U0,A1,I,N,J1,s1,A0,A1"},         // presences for rooms never joined
+	{"0,1", "A0,U0,A1,I,N,J1,s1,A0,A1"}, // presences for rooms never joined
 	{"0", "J0,Ej0,s0,J0,s0,A0"},
 	// mediated invitations: the payload first, last, between other children; two invites in one x;
 	// messages without an invitation (body only, legacy direct invitation only, decline)
@@ -797,11 +939,11 @@ var corpus = []struct {
 	{"0,0", "J0,s0,A0,J1,U0,J1,s1,A0,U0"},
 	{"0,0", "J0,J1,s0,A0,J1,Xj0"},
 	// change of nickname on a re-join (Nick option)
-	{"0", "J0,s0,A0,J0@10,s0,A0,U0,A10,A10,L0,l0,U10"},   // confirmed: 303-style unavailable of the old nick, then the new self-presence
-	{"0", "J0,s0,A0,J0@10,s0,A10,A0,U0,U10"},             // confirmed at once; the old nickname means nothing afterwards
-	{"0", "J0,s0,A0,J0@10,s0,Ej0,A0,U10,U0"},             // refused (conflict): still in the room under the old nickname
-	{"0", "J0,s0,A0,J0@10,s0,Xj0,A10,U0"},                // cancelled
-	{"0", "J0@10,s0,A0,A10,L0,l0,U10"},                   // first join with the Nick option
+	{"0", "J0,s0,A0,J0@10,s0,A0,U0,A10,A10,L0,l0,U10"}, // confirmed: 303-style unavailable of the old nick, then the new self-presence
+	{"0", "J0,s0,A0,J0@10,s0,A10,A0,U0,U10"},           // confirmed at once; the old nickname means nothing afterwards
+	{"0", "J0,s0,A0,J0@10,s0,Ej0,A0,U10,U0"},           // refused (conflict): still in the room under the old nickname
+	{"0", "J0,s0,A0,J0@10,s0,Xj0,A10,U0"},              // cancelled
+	{"0", "J0@10,s0,A0,A10,L0,l0,U10"},                 // first join with the Nick option
 	// XEP-0045 confirmation of a nickname change: unavailable presence of the OLD nickname (status
 	// 303) while the join is pending, then the self-presence of the new one; a Leave afterwards
 	// must wait for the unavailable presence of the NEW nickname
@@ -810,7 +952,7 @@ var corpus = []struct {
 	// late error replies with the id of a join / leave that has already returned
 	{"0", "J0,s0,A0,Zj0,L0,l0,U0,Zl0,Zj0,N,J0,s0,A0,Zl0"},
 	{"0,1", "J0,s0,A0,J1,s1,Ej1,Zj1,L0,l0,El0,Zl0,Zj0"},
-	{"0,10", "J0,s0,A0,J1,s1,A10,J0@10,J1@0,U10,U0"},     // the other nickname is taken by our own second channel
+	{"0,10", "J0,s0,A0,J1,s1,A10,J0@10,J1@0,U10,U0"}, // the other nickname is taken by our own second channel
 	// round C: a channel that is NOT in the room (its join failed / was refused / it has left) shares
 	// the occupant address with one that is; its Leave is answered with an error, then the room
 	// removes the occupant: only the registration of the channel that holds the address counts
@@ -824,6 +966,20 @@ var corpus = []struct {
 	{"0", "J0,s0,A0:-p110x,A0:ap110s,L0,l0,U0:nn307+110r"},
 	{"0", "J0,s0,A0:mm110e,A0:--d,U0:nn110d"},
 	{"0,1", "J0,s0,A0,J1,s1,A1:cn,U1:cn301,A1:cn,U0:mn332s"},
+	// round D: the muc.Client on a component / server-to-server session (the stanzas and their
+	// <error/> children are in that stream's namespace); error replies that echo the request
+	{"0", "%a,J0,s0,Ej0,J0,s0,A0,A0,L0,l0,El0,U0,Im,N"},
+	{"0", "%s,J0,s0,Ej0:xb,J0,s0,A0,A0:on110,L0,l0,El0:swa,U0:cn301,Ibm"},
+	{"0,10", "%a,J0,s0,A0,J1,s1,A10,J0@10,J1@0,U10,L0,l0,El0:n,U0"},
+	{"0", "J0,s0,Ej0:xwt,J0,Ej0:pg,s0,J0,s0,A0,L0,El0:wsm,l0"},
+	// round D: a muc.Client whose callbacks are not set; invitations with reason, password, thread
+	{"0", "%cn,J0,s0,A0,A0,Im,IbP,N,L0,l0,U0,A0"},
+	{"0,1", "%an,J0,s0,A0,J1,s1,Ej1:xb,A0:on110,A1,IM,U0:cn301"},
+	{"0", "IP,IbPs,IlP,Im,IuPb,Id"},
+	// round D: JoinPresence / LeavePresence with a presence of the caller's (id kept; type and to
+	// address without effect), Leave with a status
+	{"0", "J0!,s0,A0,J0@10!,s0,A10,L0!,l0,U10,J0!,s0,Ej0,J0,s0,A10,L0!,l0,El0:sb"},
+	{"0,1", "%a,J0!,s0,A0,J1@11!,s1,A11,L1!,l1,U11,L0!,U0,l0"},
 }
 
 func parseAddrs(s string) []int {
@@ -851,6 +1007,9 @@ func randSched(rnd *common.Rand, n, length int) []string {
 				ci, _ := strconv.Atoi(c)
 				j += "@" + strconv.Itoa(ci%10+10*rnd.Intn(2)) // (re-)join under nickname 0 or 1 of the channel's room
 			}
+			if rnd.Chance(1, 5) {
+				j += "!"
+			}
 			out = append(out, j)
 			if rnd.Chance(3, 4) {
 				out = append(out, "s"+c)
@@ -862,23 +1021,27 @@ func randSched(rnd *common.Rand, n, length int) []string {
 		case 8, 9, 10:
 			out = append(out, "U"+a+randPayload(rnd))
 		case 11:
-			out = append(out, "Ej"+c)
+			out = append(out, "Ej"+c+randReply(rnd))
 		case 12:
 			out = append(out, "Xj"+c)
 		case 13, 14:
-			out = append(out, "L"+c)
+			if rnd.Chance(1, 5) {
+				out = append(out, "L"+c+"!")
+			} else {
+				out = append(out, "L"+c)
+			}
 			if rnd.Chance(2, 3) {
 				out = append(out, "l"+c)
 			}
 		case 15:
 			out = append(out, "l"+c)
 		case 16:
-			out = append(out, "El"+c)
+			out = append(out, "El"+c+randReply(rnd))
 		case 17:
 			out = append(out, "Z"+string("jl"[rnd.Intn(2)])+c)
 		case 18:
 			// a mediated invitation among other children, in a random order
-			kids := []byte("m")
+			kids := []byte{"mmP"[rnd.Intn(3)]}
 			for _, k := range "bslu" {
 				if rnd.Chance(1, 2) {
 					kids = append(kids, byte(k))
@@ -926,6 +1089,17 @@ func RunWaits(r *common.Run) {
 	}
 }
 
+// tooMany: enough failing inputs have been collected (each further one costs a watchdog).
+func tooMany(r *common.Run) bool {
+	fresh := 0
+	for _, f := range r.Failures {
+		if f.Key != "not-joined-after-error-reply-to-leave" {
+			fresh++
+		}
+	}
+	return fresh >= 40 || r.Hist["problem"] >= 25
+}
+
 // Run is the C18 runner.
 func Run(r *common.Run) error {
 	if r.Replay != "" {
@@ -961,12 +1135,16 @@ func Run(r *common.Run) error {
 	// unavailable presence that ends a pending Leave
 	pls := allPayloads()
 	for n, p := range pls {
+		if tooMany(r) {
+			break // a broken tree: every further case costs a watchdog
+		}
 		r.Mark("case payload %d", n)
 		runCase(r, []int{0}, []string{"J0", "s0", "A0:" + p, "A0:" + p, "L0", "l0", "U0:" + p}, "payload")
 	}
+	nRep := runReplies(r)
 	nC := runContention(r)
 	nR := r.Pick(1200, 20000)
-	for n := 0; n < nR && len(r.Failures) < 80 && r.Hist["problem"] < 25; n++ {
+	for n := 0; n < nR && !tooMany(r); n++ {
 		r.Mark("case random %d", n)
 		k := 1 + r.Rnd.Intn(3)
 		addrs := make([]int, k)
@@ -976,8 +1154,8 @@ func Run(r *common.Run) error {
 				addrs[i] = []int{0, 10}[r.Rnd.Intn(2)] // a second channel for room 0: same or other nickname
 			}
 		}
-		runCase(r, addrs, randSched(r.Rnd, k, 6+r.Rnd.Intn(30)), "random")
+		runCase(r, addrs, append(randConf(r.Rnd), randSched(r.Rnd, k, 6+r.Rnd.Intn(30))...), "random")
 	}
-	r.Notes = append(r.Notes, fmt.Sprintf("histories: %d corpus + %d payloads (affiliation x role x status codes x item shapes) + %d contention (macro operations on channels sharing an occupant address / swapping nicknames, exhaustive) + %d random (1-3 channels, presences also for an address nobody joined, random payloads)", len(corpus), len(pls), nC, nR))
+	r.Notes = append(r.Notes, fmt.Sprintf("histories: %d corpus + %d payloads (affiliation x role x status codes x item shapes) + %d error replies (stanza namespace of the session x echoed children x form of the error) + %d contention (macro operations on channels sharing an occupant address / swapping nicknames, exhaustive) + %d random (1-3 channels, presences also for an address nobody joined, random payloads)", len(corpus), len(pls), nRep, nC, nR))
 	return nil
 }
